@@ -53,6 +53,9 @@ type Before struct {
 	Allowed     []string `json:"allowed"`
 	Reload      bool     `json:"reload"`      // marshal and re-read the session before the resume
 	RefreshEnv  bool     `json:"refresh_env"` // false: the environment is not refreshed (Allowed must equal Before.Allowed)
+	// Revisit: the first sprint already passes through the localized node (under the old settings) before it waits, and the
+	// resume leads back into it: the same message, result and routing are produced again, now under the refreshed settings
+	Revisit bool `json:"revisit,omitempty"`
 }
 
 var properties = []string{"text", "attachments", "quick_replies", "category", "cat_name", "arguments"}
@@ -147,6 +150,10 @@ func (c Case) assets() json.RawMessage {
 			"exits": []M{{"uuid": world.UUID("exit", 9), "destination_uuid": world.UUID("node", 1)}},
 		}
 		nodes = []M{first, node}
+		if c.Before.Revisit {
+			node["exits"] = []M{{"uuid": world.UUID("exit", 1), "destination_uuid": world.UUID("node", 0)}, {"uuid": world.UUID("exit", 2), "destination_uuid": world.UUID("node", 0)}}
+			nodes = []M{node, first}
+		}
 	}
 	flow := M{"uuid": world.UUID("flow", 1), "name": "L10n", "spec_version": "13.6.0", "language": "eng", "type": "messaging", "revision": 1, "expire_after_minutes": 0, "localization": loc, "nodes": nodes}
 	b, _ := json.Marshal(M{"flows": []M{flow}, "channels": world.Channels(), "templates": world.MsgTemplates()})
@@ -271,13 +278,14 @@ func run(c Case) *harn.Failure {
 		if err != nil || sp.Err != nil {
 			return harn.Failf("harness-setup", "scenario does not resume: %v / %v", err, sp.Err)
 		}
-		stats.Label(fmt.Sprintf("history:reload=%v,envrefresh=%v", c.Before.Reload, c.Before.RefreshEnv))
+		stats.Label(fmt.Sprintf("history:reload=%v,envrefresh=%v,revisit=%v", c.Before.Reload, c.Before.RefreshEnv, c.Before.Revisit))
 	}
 	var msg *msgEvent
 	for _, raw := range sp.Events {
 		e := msgEvent{}
 		// messages built from a channel template carry that template's content and locale: the statement is about the others
-		if json.Unmarshal(raw, &e) == nil && e.Type == "msg_created" && e.Msg.Templating == nil {
+		// (the greeting of the waiting node is not one of the localized items)
+		if json.Unmarshal(raw, &e) == nil && e.Type == "msg_created" && e.Msg.Templating == nil && !strings.HasPrefix(e.Msg.Text, "hello ") {
 			msg = &e
 		}
 	}
@@ -394,7 +402,7 @@ func TestLocalization(t *testing.T) {
 		c.AllURNs = rapid.IntRange(0, 3).Draw(rt, "allurns") == 0
 		if rapid.Bool().Draw(rt, "history") {
 			b := &Before{ContactLang: rapid.SampledFrom(contactLangs).Draw(rt, "clang0"), Allowed: rapid.SampledFrom(allowedLists).Draw(rt, "allowed0"),
-				Reload: rapid.Bool().Draw(rt, "reload"), RefreshEnv: rapid.IntRange(0, 3).Draw(rt, "refreshenv") > 0}
+				Reload: rapid.Bool().Draw(rt, "reload"), RefreshEnv: rapid.IntRange(0, 3).Draw(rt, "refreshenv") > 0, Revisit: rapid.Bool().Draw(rt, "revisit")}
 			if !b.RefreshEnv {
 				b.Allowed = c.Allowed
 			}
